@@ -9,9 +9,8 @@ seen = set()
 for p in props:
     try:
         ctx = Context(root, level)
-        obs = []
-        for fn in PROPS[p]['rules']:
-            obs.extend(fn(ctx))
+        from pyspike_sa.main import run_rules
+        obs = run_rules(p, PROPS[p], ctx)
     except Exception as e:
         import traceback; traceback.print_exc()
         print(p, 'CRASH', repr(e)); continue
